@@ -336,7 +336,8 @@ fn indexgrid(rng: &mut Rng, n: usize, sink: &mut Sink) {
         let mut sts = states(rng, text);
         sts.push(("static", vec![]));
         for (sname, setup) in &sts {
-            for i in 0..=text.len() + 2 {
+            for i in 0..=text.len() + 4 {
+                // plain and `try_` form of every indexed operation, with empty, one-character and longer arguments
                 let ops = [
                     format!("insert 0 {i} {}", h(gn::rand_char(rng))),
                     format!("try_insert_str 0 {i} {}", h(&gn::short_text(rng))),
@@ -345,6 +346,10 @@ fn indexgrid(rng: &mut Rng, n: usize, sink: &mut Sink) {
                     format!("truncate 0 {i}"),
                     format!("try_truncate 0 {i}"),
                     format!("insert_str 0 {i} -"),
+                    format!("insert_str 0 {i} {}", h(&gn::short_text(rng))),
+                    format!("try_insert 0 {i} {}", h(gn::rand_char(rng))),
+                    format!("try_insert_str 0 {i} -"),
+                    format!("insert_str 0 {i} {}", h("xy")),
                 ];
                 for (oi, op) in ops.iter().enumerate() {
                     if n < 2 && (oi + i + ti) % 2 != 0 {
